@@ -178,3 +178,71 @@ Definition py_label (ns : list lab) (t : nat) : lab := nth t ns (LO 0).
 Definition py_pop (l : list nat) : list nat * nat := (removelast l, last l 0).
 (* ns.new_taxon(label=a): a new taxon is appended, whatever labels exist *)
 Definition py_new_taxon (ns : list lab) (a : lab) : list lab * nat := (ns ++ [a], length ns).
+
+(* ------------------------------------------------------------------------------------------ *)
+(* parent pointers of the birth-death tree (the extinct-tip pruning loop)                       *)
+(* ------------------------------------------------------------------------------------------ *)
+
+(* nd.parent_node : the identity of the node that lists nd among its children (None for the seed) *)
+Fixpoint parent_of (x : nat) (t : btree) : option nat :=
+  match t with B i _ _ ks =>
+    if existsb (fun k => b_id k =? x) ks then Some i
+    else fold_right (fun k acc => match parent_of x k with Some p => Some p | None => acc end) None ks
+  end.
+(* len(nd._child_nodes) *)
+Fixpoint nkids_of (x : nat) (t : btree) : option nat :=
+  match t with B i _ _ ks =>
+    if i =? x then Some (length ks)
+    else fold_right (fun k acc => match nkids_of x k with Some n => Some n | None => acc end) None ks
+  end.
+Definition b_parent (t : btree) (x : nat) : option nat := parent_of x t.
+Definition b_nkids (t : btree) (x : nat) : nat := match nkids_of x t with Some n => n | None => 0 end.
+(* the node denoted by an expression the translator has established not to be None *)
+Definition py_unwrap_n (o : option nat) : nat := match o with Some n => n | None => 0 end.
+
+(* node._parent_node.remove_child(node) *)
+Fixpoint remove_child (x : nat) (t : btree) : btree :=
+  match t with B i l tx ks =>
+    B i l tx (flat_map (fun k => if b_id k =? x then [] else [remove_child x k]) ks) end.
+(* tree.prune_subtree(nd, suppress_unifurcations=False): TypeError for a node without parent *)
+Definition b_prune_subtree (t : btree) (x : nat) : M btree :=
+  match parent_of x t with
+  | None => raise PyPrims.TypeErr
+  | Some _ => ret (remove_child x t)
+  end.
+
+(* ------------------------------------------------------------------------------------------ *)
+(* the containing tree of contained_coalescent_tree: a value of type stree (C18Model.v)        *)
+(* ------------------------------------------------------------------------------------------ *)
+
+(* the identity of a node of the containing tree (used as dictionary key) *)
+Definition s_id (s : stree) : nat := match s with SN i _ _ _ _ => i end.
+(* `nd.taxon and nd.taxon in gene_to_containing_taxon_map.reverse` *)
+Definition s_has_genes (s : stree) : bool := match s with SN _ (Some _) _ _ _ => true | _ => false end.
+(* containing_tree.postorder_node_iter() *)
+Fixpoint s_post (s : stree) : list stree :=
+  match s with SN _ _ _ _ ks => flat_map s_post ks ++ [s] end.
+(* containing_tree.postorder_edge_iter(): an edge = (its head node, the identity of its tail node =
+   head_node.parent_node, None for the edge of the seed node) *)
+Fixpoint s_post_edges (parent : option nat) (s : stree) : list (stree * option nat) :=
+  match s with SN i _ _ _ ks => flat_map (s_post_edges (Some i)) ks ++ [(s, parent)] end.
+
+(* a dict keyed by nodes: association list keyed by node identity; a later binding shadows an earlier
+   one (the iteration order of the dict is never observed by the translated code) *)
+Fixpoint d_get {V} (d : list (nat * V)) (k : nat) : option V :=
+  match d with [] => None | (k', v) :: r => if k' =? k then Some v else d_get r k end.
+(* key in d *)
+Definition d_has {V} (d : list (nat * V)) (k : nat) : bool :=
+  match d_get d k with Some _ => true | None => false end.
+(* d[key] = v *)
+Definition d_set {V} (d : list (nat * V)) (k : nat) (v : V) : list (nat * V) := (k, v) :: d.
+(* d[key]: KeyError when absent *)
+Definition py_dict_get {V} (d : list (nat * V)) (k : nat) : M V :=
+  match d_get d k with Some v => ret v | None => raise PyPrims.KeyErr end.
+
+(* L[i] = v : IndexError when i is out of range *)
+Definition py_list_set {A} (l : list A) (i : nat) (v : A) : M (list A) :=
+  if i <? length l then ret (set_nth i v l) else raise PyPrims.IndexErr.
+(* del L[i] : IndexError when i is out of range *)
+Definition py_list_del {A} (l : list A) (i : nat) : M (list A) :=
+  if i <? length l then ret (remove_nth i l) else raise PyPrims.IndexErr.
